@@ -188,6 +188,9 @@ def dry_runs():
     yield 'R1_run', dict(c1=2, c2=5, quiet_at=1, end=0, shape=2, kindA=0, cbres=0, uni=False, withexit=False, status=0)
 
 
+PROBES = ['expect_core']      # representation probes (harness/probes.py) this harness depends on
+
+
 MANIFEST_ENTRY = {
     'level_text': 'Bounded symbolic verification of the real run() loop over a scripted child with the real expect '
                   'machinery underneath: read boundaries (two symbolic cuts), transport TIMEOUTs in between, end event, '
